@@ -173,12 +173,11 @@ def decide(case, ctx, c, first):
             ok, got = True, want  # the library's enumeration is skipped for this class
         else:
             ok, got = ctx.call(cg.sat.model_count, c, Aarg)
-        if Aarg != A:
-            ctx.violation("model_count_mutates_assumptions", f"model_count changed the caller's assumptions dict to {Aarg}")
         if ai == 0 and sp_n <= 6 and case["kind"] != "wide_approx":
             from rv.props._util import repeat_call
 
-            repeat_call(ctx, "model_count", f"model_count({A})", cg.sat.model_count, (c, Aarg), {}, (ok, got))
+            # second call with the same (possibly modified) argument objects; that outcome is judged below
+            ok, got = repeat_call(ctx, "model_count", f"model_count({A})", cg.sat.model_count, (c, Aarg), {}, (ok, got))
         ctx.count("cmp:model_count")
         ctx.count("count_zero" if want == 0 else "count_pos")
         if A and any(net.types[n] not in ("input", "bb_output") for n in A):
